@@ -1,0 +1,14 @@
+//go:build verif
+
+package storage
+
+// VerifImmutableCount waits for any flush in progress to finish and returns
+// the number of immutable memtables still waiting to be flushed. It exists
+// only for verification harnesses (build tag verif).
+func (m *Manager) VerifImmutableCount() int {
+	m.flushMu.Lock()
+	defer m.flushMu.Unlock()
+	m.mu.RLock()
+	defer m.mu.RUnlock()
+	return len(m.immutableMTs)
+}
